@@ -12,6 +12,18 @@ VERIF = os.path.dirname(os.path.dirname(os.path.abspath(__file__)))
 TARGET = os.path.join(VERIF, ".cache", "native-target")
 
 
+def touch_sources(dst):
+    """cargo decides freshness by mtime against the last build in the (shared) target dir: a scratch copy prepared while another
+    build was running would look older than that build and its stale binary would be run — stamp the sources after taking the lock"""
+    for root, _dirs, files in os.walk(os.path.join(dst, "src")):
+        for f in files:
+            if f.endswith(".rs"):
+                try:
+                    os.utime(os.path.join(root, f), None)
+                except OSError:
+                    pass
+
+
 def run_native(mods, flt, repo="/repo", timeout=3600, extra_args=None):
     """mods: list of (module file rel path, abs test file).  returns (rc, output)"""
     scratch = tempfile.mkdtemp(prefix="vx_native_")
@@ -29,7 +41,14 @@ def run_native(mods, flt, repo="/repo", timeout=3600, extra_args=None):
                 f.write('\n#[cfg(test)]\n#[path = "%s"]\nmod %s;\n' % (testfile, name))
         env = dict(os.environ, CARGO_NET_OFFLINE="true", CARGO_TARGET_DIR=TARGET, RUST_BACKTRACE="0")
         cmd = ["cargo", "test", "--lib", "--offline", "-p", "rnacos", flt, "--", "--nocapture", "--test-threads", "1"] + (extra_args or [])
-        p = subprocess.run(cmd, cwd=dst, env=env, capture_output=True, text=True, timeout=timeout)
+        # one native build + run at a time: the test binary has the same file name for every scratch copy of the crate, so two
+        # concurrent runs sharing the target dir could execute each other's binary
+        import fcntl
+        os.makedirs(TARGET, exist_ok=True)
+        with open(os.path.join(TARGET, ".vx_native_lock"), "w") as lk:
+            fcntl.flock(lk, fcntl.LOCK_EX)
+            touch_sources(dst)
+            p = subprocess.run(cmd, cwd=dst, env=env, capture_output=True, text=True, timeout=timeout)
         return p.returncode, p.stdout[-40000:] + "\n" + p.stderr[-40000:]
     finally:
         shutil.rmtree(scratch, ignore_errors=True)
